@@ -222,8 +222,14 @@ def join_byte_intervals(
     address += destination.size
     last_block = max(destination.blocks, key=lambda b: b.offset, default=None)
     last_module = last_block.module if last_block is not None else None
+    # First offset past every block in the destination. Blocks may overlap,
+    # so this is not necessarily where the last block ends.
+    covered_end = max(
+        (b.offset + b.size for b in destination.blocks), default=0
+    )
 
     def insert_padding(size):
+        nonlocal covered_end
         if size == 0:
             return
         if isinstance(last_block, gtirb.CodeBlock):
@@ -244,15 +250,10 @@ def join_byte_intervals(
         # The pretty-printer won't print the padding bytes unless they
         # are contained in blocks, add a block covering anything not
         # yet covered by the last block.
-        if last_block is not None:
-            padding_block_offset = last_block.offset + last_block.size
-            padding_block_size = (
-                len(destination.contents) - padding_block_offset
-            )
-        else:
-            padding_block_offset = 0
-            padding_block_size = len(destination.contents)
+        padding_block_offset = covered_end
+        padding_block_size = len(destination.contents) - padding_block_offset
         if padding_block_size > 0:
+            covered_end = len(destination.contents)
             if isinstance(last_block, gtirb.CodeBlock):
                 padding = gtirb.CodeBlock(
                     offset=padding_block_offset,
@@ -315,6 +316,7 @@ def join_byte_intervals(
         for block in tuple(interval.blocks):
             block.offset += deltas[interval]
             block.byte_interval = destination
+            covered_end = max(covered_end, block.offset + block.size)
 
         interval.initialized_size = 0
         interval.symbolic_expressions.clear()
